@@ -145,3 +145,69 @@ print(json.dumps(got))
     got = json.loads(out.strip().splitlines()[-1])
     return {"reproduced": got.get("Mesh") != got.get("IterMesh"), "input": {"mesh": 50.0, "is_gamma_center": False},
             "real_code": got, "expected": "stored and iterated mesh are built with the same is_gamma_center"}
+
+
+QF = "phonopy/phonon/qpoints.py"
+
+
+def qpoints_ownership(run):
+    """QpointsPhonon._run: the dynamical matrices handed out must be the ones computed, whichever other outputs
+    were requested and whether or not the extension was built with OpenMP (buffer-ownership obligation)."""
+    mod = pyexec.load(QF)
+    m = mod.method("QpointsPhonon", "_run")
+    pref = QF + ":QpointsPhonon._run"
+    omp = z3.Bool("use_openmp")
+    hooks = {"phonopy._phonopy.use_openmp": lambda ex, st, args, kwargs: omp,
+             "run_dynamical_matrix_solver_c": lambda ex, st, args, kwargs: Opaque("dynmat buffer of run_dynamical_matrix_solver_c"),
+             "QpointsPhonon._get_dynamical_matrix": lambda ex, st, args, kwargs: Opaque("dynamical matrix of this q (new array per run)")}
+    ex = PyExec(mod, run.sink, pref, hooks=hooks, opaque_unknown=True, split=True)
+    st = PState()
+    with_ev, with_dm = z3.Bool("with_eigenvectors"), z3.Bool("with_dynamical_matrices")
+    self_ref = st.new(Record("QpointsPhonon", {
+        "_gv_obj": None, "_qpoints": Opaque("qpoints"), "_nac_q_direction": Opaque("nac_q_direction"), "_natom": z3.Int("natom"),
+        "_with_dynamical_matrices": with_dm, "_with_eigenvectors": with_ev, "_dynamical_matrix": Opaque("dynamical matrix object"),
+        "_factor": z3.Real("factor"), "_frequencies": None, "_eigenvalues": None, "_eigenvectors": None, "_dynamical_matrices": None,
+        "_group_velocities": None}))
+    n0 = len(run.sink.obls)
+    outs = ex.call_function(st, m, [], self_ref=self_ref, cls="QpointsPhonon")
+    own = [o for o in run.sink.obls[n0:] if o.kind == "ownership"]
+    if not own:
+        raise CheckerError("QpointsPhonon._run: no ownership obligation generated (has the output assembly changed?)")
+    for ob in own:
+        ob.meta["witness"] = {"use_openmp": z3.If(omp, z3.IntVal(1), z3.IntVal(0)), "with_eigenvectors": z3.If(with_ev, z3.IntVal(1), z3.IntVal(0))}
+        ob.replay = replay_qpoints
+    run.functions.append({"file": QF, "function": "QpointsPhonon._run", "line": m.lineno, "sha1": mod.sha(m),
+                          "obligations": len(run.sink.obls) - n0})
+    run.abstracted += sorted(set(ex.abstracted))[:20]
+
+
+def replay_qpoints(model):
+    """real QpointsPhonon._run with a stub extension that reports OpenMP and returns known dynamical matrices"""
+    from pvc import creplay
+    code = r'''
+import sys, types, json
+import numpy as np
+stub = types.ModuleType("phonopy._phonopy")
+stub.use_openmp = lambda: True
+sys.modules["phonopy._phonopy"] = stub
+import phonopy
+phonopy._phonopy = stub
+import phonopy.phonon.qpoints as qp
+rng = np.random.default_rng(0)
+def herm(n):
+    a = rng.normal(size=(n, n)) + 1j * rng.normal(size=(n, n)); return (a + a.conj().T) / 2
+truth = np.array([herm(3), herm(3)])
+qp.run_dynamical_matrix_solver_c = lambda dm, q, d=None: truth.copy()
+o = qp.QpointsPhonon.__new__(qp.QpointsPhonon)
+o._gv_obj = None; o._qpoints = np.zeros((2, 3)); o._nac_q_direction = None; o._natom = 1
+o._with_dynamical_matrices = True; o._with_eigenvectors = True; o._dynamical_matrix = None; o._factor = 1.0
+o._run()
+print(json.dumps({"max_abs_diff_reported_vs_computed": float(np.abs(o._dynamical_matrices - truth).max())}))
+'''
+    rc, out, err = creplay.py_eval(code)
+    if rc != 0:
+        return {"reproduced": False, "reason": err[-500:]}
+    import json
+    r = json.loads(out.strip().splitlines()[-1])
+    return {"reproduced": r["max_abs_diff_reported_vs_computed"] > 1e-9, "input": {"use_openmp": True, "with_eigenvectors": True, "with_dynamical_matrices": True},
+            "real_code": r, "expected": "reported dynamical matrices == computed dynamical matrices"}
